@@ -276,28 +276,51 @@ theorem Simple.step_congr (cfg : Cfg) (s s' : Store) (now : Nat) (q : Req) (a : 
   · exact ⟨rfl, rfl⟩
   · split <;> exact ⟨rfl, rfl⟩
 
-/-- **simple_key_separation.**  For every store, times and answers: what request `q2` gets is not
-influenced by an earlier request `q1` whose answer was stored under a different key — in particular
-(see `Simple.key_eq_iff`) whenever `q1`'s answer echoes `q1`'s DO bit and the two requests differ in
-qtype, qclass, DO or case-folded name. -/
+/-- **simple_key_separation.**  For every store, times and answers (whatever the answers look like,
+with or without an OPT record): what request `q2` gets is not influenced by an earlier request `q1`
+that differs from it in qtype, qclass, DO bit or case-folded name. -/
 theorem simple_key_separation (cfg : Cfg) (s : Store) (now1 now2 : Nat) (q1 q2 : Req) (a1 a2 : Msg)
-    (hne : Simple.keyOfResp q1 (prepStore cfg q1.qtype a1).1 ≠ Simple.keyOfReq q2) :
+    (hne : ¬ (q1.do_ = q2.do_ ∧ q1.qtype = q2.qtype ∧ q1.qclass = q2.qclass ∧ q1.name.toLower = q2.name.toLower)) :
     (Simple.step cfg (Simple.step cfg s now1 q1 a1).store now2 q2 a2).resp = (Simple.step cfg s now2 q2 a2).resp ∧
     (Simple.step cfg (Simple.step cfg s now1 q1 a1).store now2 q2 a2).hit = (Simple.step cfg s now2 q2 a2).hit := by
+  have hne' : Simple.keyOfReq q1 ≠ Simple.keyOfReq q2 := fun h => hne ((Simple.key_eq_iff q1 q2).mp h)
   apply Simple.step_congr
   unfold Simple.step Simple.stepWith
   split
   · rfl
   · split
     · rfl
-    · exact live_put_other s now2 _ _ _ (fun h => hne h.symm)
+    · exact live_put_other s now2 _ _ _ (fun h => hne' h.symm)
 
-/-- With an answer that echoes the DO bit the stored key is the request's key. -/
-theorem Simple.keyOfResp_echo (cfg : Cfg) (q : Req) (a : Msg) (h : msgDO a = q.do_) :
-    Simple.keyOfResp q (prepStore cfg q.qtype a).1 = Simple.keyOfReq q := by
-  obtain ⟨ans, hs, _, _⟩ := prepStore_shape cfg q.qtype a
-  have : msgDO (prepStore cfg q.qtype a).1 = msgDO a := by rw [hs]; rfl
-  simp [Simple.keyOfResp, Simple.keyOfReq, this, h]
+def sigRR : RR := { typ := 46, ttl := 60, soaMin := 0, data := 9 }
+def upNoOpt (d : Bool) : Msg :=
+  { rcode := 0, tc := false, aa := false, ad := false, ra := true, rd := true, cd := false, nq := 1,
+    answer := { typ := 1, ttl := 60, soaMin := 0, data := 7 } :: (if d then [sigRR] else []), ns := [], extra := [] }
+def reqDO (d : Bool) : Req :=
+  { name := "a.example.", qtype := 1, qclass := 1, do_ := d, ad := false, rd := true, cd := false, fam6 := false,
+    declined := false, subnet := 0, edns := d }
+
+/-- **simple_respkey_counterexample.**  The code before the round-3 fix (`set` keyed the entry by the
+*response*) violates the property against an upstream that is a function of question and DO bit but
+answers without an OPT record: the answer to a DO=1 query (it carries an RRSIG) is served to the same
+question asked with DO=0, whose fresh answer has no RRSIG; and an answer whose question section echoes
+class IN for a class-CH query is served to the class-IN query. -/
+theorem simple_respkey_counterexample :
+    -- DO: served from cache, with the RRSIG of the DO=1 answer, although a fresh answer has none
+    (Simple.stepOldKey ⟨0, false⟩ (Simple.stepOldKey ⟨0, false⟩ Store.empty 0 (reqDO true) (upNoOpt true) 1).store
+        5 (reqDO false) (upNoOpt false) 1).hit = true ∧
+    sigRR ∈ ((Simple.stepOldKey ⟨0, false⟩ (Simple.stepOldKey ⟨0, false⟩ Store.empty 0 (reqDO true) (upNoOpt true) 1).store
+        5 (reqDO false) (upNoOpt false) 1).resp.answer.map (setTTL 60)) ∧
+    sigRR ∉ (Simple.stepOldKey ⟨0, false⟩ Store.empty 5 (reqDO false) (upNoOpt false) 1).resp.answer ∧
+    -- class: the entry of a class-3 query whose answer echoes class 1 is served to the class-1 query
+    (Simple.stepOldKey ⟨0, false⟩ (Simple.stepOldKey ⟨0, false⟩ Store.empty 0 { reqDO false with qclass := 3 } (upNoOpt true) 1).store
+        5 (reqDO false) (upNoOpt false) 1).hit = true ∧
+    -- the code as it is now serves neither
+    (Simple.step ⟨0, false⟩ (Simple.step ⟨0, false⟩ Store.empty 0 (reqDO true) (upNoOpt true)).store
+        5 (reqDO false) (upNoOpt false)).hit = false ∧
+    (Simple.step ⟨0, false⟩ (Simple.step ⟨0, false⟩ Store.empty 0 { reqDO false with qclass := 3 } (upNoOpt true)).store
+        5 (reqDO false) (upNoOpt false)).hit = false := by
+  decide +kernel
 
 theorem Ecs.step_congr (cfg : Cfg) (s s' : Store) (now : Nat) (q : Req) (a : Msg) (dep : Bool)
     (h1 : s'.live now (Ecs.keyNo q) = s.live now (Ecs.keyNo q))
@@ -341,7 +364,8 @@ example : (Simple.step ⟨0, false⟩ exStore 5 { exReq with name := "aB." } exM
 example : (Simple.step ⟨0, false⟩ exStore 5 { exReq with qtype := 28 } exMsg).hit = false := by decide +kernel
 example : (Simple.step ⟨0, false⟩ exStore 5 { exReq with qclass := 3 } exMsg).hit = false := by decide +kernel
 example : (Simple.step ⟨0, false⟩ exStore 5 { exReq with do_ := false } exMsg).hit = false := by decide +kernel
-example : Simple.keyOfResp exReq (prepStore ⟨0, false⟩ exReq.qtype exMsg).1 ≠ Simple.keyOfReq { exReq with qtype := 28 } := by
+example : ¬ (exReq.do_ = ({ exReq with qtype := 28 } : Req).do_ ∧ exReq.qtype = ({ exReq with qtype := 28 } : Req).qtype ∧
+    exReq.qclass = ({ exReq with qtype := 28 } : Req).qclass ∧ exReq.name.toLower = ({ exReq with qtype := 28 } : Req).name.toLower) := by
   decide +kernel
 
 /-! ## A cached answer equals a fresh one (simple cache) -/
@@ -360,12 +384,6 @@ case-insensitively, qtype, qclass) and the DO bit; the message handed to the mid
 `echo q (up (keyOfReq q))`. -/
 def Simple.answerFor (up : Key → Msg) (q : Req) : Msg := echo q (up (Simple.keyOfReq q))
 
-/-- The answer's OPT echoes the DO bit the upstream acted on: either the request's own, or — for an
-upstream that ignores EDNS for the question — none, in which case the answer is the one it gives
-without DO. -/
-def DOConsistent (up : Key → Msg) : Prop :=
-  ∀ d qt qc n, up (.simple (msgDO (up (.simple d qt qc n))) qt qc n) = up (.simple d qt qc n)
-
 def Simple.runUp (cfg : Cfg) (up : Key → Msg) : Store → List (Nat × Req ⊕ Key) → Store
   | s, [] => s
   | s, .inl (now, q) :: evs => Simple.runUp cfg up (Simple.step cfg s now q (Simple.answerFor up q)).store evs
@@ -377,12 +395,7 @@ def InvUp (cfg : Cfg) (up : Key → Msg) (s : Store) : Prop :=
     e.msg = (prepStore cfg q0.qtype (echo q0 (up k))).1 ∧
     (prepStore cfg q0.qtype (echo q0 (up k))).2 ≠ none
 
-theorem msgDO_prep_echo (cfg : Cfg) (qt : Nat) (q : Req) (m : Msg) :
-    msgDO (prepStore cfg qt (echo q m)).1 = msgDO m := by
-  obtain ⟨ans, hs, _, _⟩ := prepStore_shape cfg qt (echo q m)
-  rw [hs]; rfl
-
-theorem Simple.invUp_step (cfg : Cfg) (up : Key → Msg) (hdo : DOConsistent up) (s : Store) (now : Nat) (q : Req)
+theorem Simple.invUp_step (cfg : Cfg) (up : Key → Msg) (s : Store) (now : Nat) (q : Req)
     (h : InvUp cfg up s) : InvUp cfg up (Simple.step cfg s now q (Simple.answerFor up q)).store := by
   unfold Simple.step Simple.stepWith
   split
@@ -392,32 +405,22 @@ theorem Simple.invUp_step (cfg : Cfg) (up : Key → Msg) (hdo : DOConsistent up)
     · rename_i life hp
       intro k' e he
       dsimp only at he
-      by_cases hk : k' = Simple.keyOfResp q (prepStore cfg q.qtype (Simple.answerFor up q)).1
+      by_cases hk : k' = Simple.keyOfReq q
       · subst hk
         rw [put_same] at he
         cases he
-        have hdo' : msgDO (prepStore cfg q.qtype (Simple.answerFor up q)).1 = msgDO (up (Simple.keyOfReq q)) :=
-          msgDO_prep_echo cfg q.qtype q _
-        have hup : up (Simple.keyOfResp q (prepStore cfg q.qtype (Simple.answerFor up q)).1) = up (Simple.keyOfReq q) := by
-          unfold Simple.keyOfResp
-          rw [hdo']
-          exact hdo q.do_ q.qtype q.qclass q.name.toLower
-        refine ⟨{ q with do_ := msgDO (prepStore cfg q.qtype (Simple.answerFor up q)).1 }, rfl, ?_, ?_⟩
-        · show (prepStore cfg q.qtype (Simple.answerFor up q)).1 = _
-          rw [hup]; rfl
-        · show (prepStore cfg q.qtype (echo _ (up _))).2 ≠ none
-          rw [hup]
-          show (prepStore cfg q.qtype (Simple.answerFor up q)).2 ≠ none
-          rw [hp]; simp
+        refine ⟨q, rfl, rfl, ?_⟩
+        show (prepStore cfg q.qtype (Simple.answerFor up q)).2 ≠ none
+        rw [hp]; simp
       · rw [put_other s _ k' _ hk] at he; exact h k' e he
 
-theorem Simple.invUp_run (cfg : Cfg) (up : Key → Msg) (hdo : DOConsistent up) (s : Store)
+theorem Simple.invUp_run (cfg : Cfg) (up : Key → Msg) (s : Store)
     (evs : List (Nat × Req ⊕ Key)) (h : InvUp cfg up s) : InvUp cfg up (Simple.runUp cfg up s evs) := by
   induction evs generalizing s with
   | nil => exact h
   | cons ev evs ih =>
     cases ev with
-    | inl p => exact ih _ (Simple.invUp_step cfg up hdo s p.1 p.2 h)
+    | inl p => exact ih _ (Simple.invUp_step cfg up s p.1 p.2 h)
     | inr k =>
       apply ih
       intro k' e he
@@ -445,14 +448,15 @@ theorem prepStore_echo_indep (cfg : Cfg) (qt : Nat) (q q' : Req) (m : Msg) :
   · split <;> exact ⟨rfl, rfl⟩
 
 /-- **simple_hit_equals_fresh.**  For every upstream that is a function of question and DO bit
-(`up`, with `DOConsistent`), every history of requests, clock readings and evictions, and every
+(`up`, no further hypothesis: its answers may or may not carry an OPT record, echo the DO bit or
+not), every history of requests, clock readings and evictions, and every
 further request `q` at any time: the response — from cache or not — has the same rcode, flags and
 records (OPT and TTL values aside) as the response an empty cache would give to `q`. -/
-theorem simple_hit_equals_fresh (cfg : Cfg) (up : Key → Msg) (hdo : DOConsistent up)
+theorem simple_hit_equals_fresh (cfg : Cfg) (up : Key → Msg)
     (evs : List (Nat × Req ⊕ Key)) (now : Nat) (q : Req) :
     SameModTTL (Simple.step cfg (Simple.runUp cfg up Store.empty evs) now q (Simple.answerFor up q)).resp
       (Simple.step cfg Store.empty now q (Simple.answerFor up q)).resp := by
-  have hinv := Simple.invUp_run cfg up hdo Store.empty evs (by intro k e h; cases h)
+  have hinv := Simple.invUp_run cfg up Store.empty evs (by intro k e h; cases h)
   generalize Simple.runUp cfg up Store.empty evs = s at *
   have hfresh : (Simple.step cfg Store.empty now q (Simple.answerFor up q)).resp =
       (prepStore cfg q.qtype (Simple.answerFor up q)).1 := by
@@ -491,25 +495,23 @@ theorem simple_hit_equals_fresh (cfg : Cfg) (up : Key → Msg) (hdo : DOConsiste
       rw [strip_map_setTTL, strip_filter_nonOPT]; rfl
   · split <;> exact ⟨rfl, rfl, rfl, rfl, rfl, rfl, rfl, rfl, rfl⟩
 
-/-- Non-vacuity of `DOConsistent`: an upstream that echoes DO, and one that ignores EDNS. -/
-example : DOConsistent (fun k => match k with
-    | .simple d _ _ _ => { exMsg with extra := [{ typ := 41, ttl := if d then 32768 else 0, soaMin := 0, data := 0 }] }
-    | _ => exMsg) := by
-  intro d qt qc n
-  cases d <;> rfl
-
-example : DOConsistent (fun _ => { exMsg with extra := [] }) := by
-  intro d qt qc n; rfl
-
-
+/-- Non-vacuity: an upstream whose answer depends on the DO bit but never carries an OPT record
+(`upNoOpt`): the DO=0 client is not served the DO=1 client's answer, the DO=1 client is served its own. -/
+def upNoOptKey : Key → Msg
+  | .simple d _ _ _ => upNoOpt d
+  | _ => upNoOpt false
+example : (Simple.step ⟨0, false⟩ (Simple.runUp ⟨0, false⟩ upNoOptKey Store.empty [.inl (0, reqDO true)]) 5 (reqDO false)
+    (Simple.answerFor upNoOptKey (reqDO false))).hit = false := by decide +kernel
+example : (Simple.step ⟨0, false⟩ (Simple.runUp ⟨0, false⟩ upNoOptKey Store.empty [.inl (0, reqDO true)]) 5 (reqDO true)
+    (Simple.answerFor upNoOptKey (reqDO true))).hit = true := by decide +kernel
 
 /-! ## Provenance: what is served was stored for the same question by an earlier query of the history -/
 
 /-- Every entry of the simple cache stems from a query event of the history processed so far: it holds
-what `set` made of that query's answer, under the key of that answer, stamped with that query's time. -/
+what `set` made of that query's answer, under the key of that query, stamped with that query's time. -/
 def Simple.InvH (cfg : Cfg) (pre : List Ev) (s : Store) : Prop :=
   ∀ k e, s k = some e → ∃ now0 q0 a0 d0 life, Ev.query now0 q0 a0 d0 ∈ pre ∧
-    k = Simple.keyOfResp q0 (prepStore cfg q0.qtype a0).1 ∧
+    k = Simple.keyOfReq q0 ∧
     e.msg = (prepStore cfg q0.qtype a0).1 ∧ (prepStore cfg q0.qtype a0).2 = some life ∧
     e.at_ = now0 ∧ e.expAt = now0 + life
 
@@ -545,7 +547,7 @@ theorem Simple.invH_run (cfg : Cfg) (pre evs : List Ev) (s : Store) (h : Simple.
         · rename_i life hp
           intro k' e he
           dsimp only at he
-          by_cases hk : k' = Simple.keyOfResp q (prepStore cfg q.qtype a).1
+          by_cases hk : k' = Simple.keyOfReq q
           · subst hk
             rw [put_same] at he
             cases he
@@ -555,15 +557,15 @@ theorem Simple.invH_run (cfg : Cfg) (pre evs : List Ev) (s : Store) (h : Simple.
 
 /-- **simple_hit_provenance.**  After any history of the simple cache (any answers, times, evictions):
 a request `q` answered from the cache at time `now` is answered with what `set` made of the answer
-`a0` to an earlier query `q0` *of that history* with the same case-folded name, qtype and qclass, whose
-answer carried `q`'s DO bit; `a0` was complete and cacheable for the asked type `q.qtype` with a
+`a0` to an earlier query `q0` *of that history* with the same case-folded name, qtype, qclass and DO
+bit; `a0` was complete and cacheable for the asked type `q.qtype` with a
 non-zero lowest TTL; `now` is within the lifetime `set` computed at `q0`'s time `now0`; and the age
 the TTLs are reduced by is exactly `now - now0`. -/
 theorem simple_hit_provenance (cfg : Cfg) (evs : List Ev) (now : Nat) (q : Req) (a : Msg)
     (hhit : (Simple.step cfg (Simple.run cfg Store.empty evs) now q a).hit = true) :
     ∃ now0 q0 a0 d0 life, Ev.query now0 q0 a0 d0 ∈ evs ∧
       q0.name.toLower = q.name.toLower ∧ q0.qtype = q.qtype ∧ q0.qclass = q.qclass ∧
-      msgDO (prepStore cfg q0.qtype a0).1 = q.do_ ∧
+      q0.do_ = q.do_ ∧
       isCacheable q.qtype a0 = true ∧ findLowestTTL a0 ≠ 0 ∧
       (prepStore cfg q.qtype a0).2 = some life ∧ now ≤ now0 + life ∧
       (Simple.step cfg (Simple.run cfg Store.empty evs) now q a).resp =
@@ -576,8 +578,8 @@ theorem simple_hit_provenance (cfg : Cfg) (evs : List Ev) (now : Nat) (q : Req) 
   · rename_i e hl
     obtain ⟨hk, hexp⟩ := live_some s now _ e hl
     obtain ⟨now0, q0, a0, d0, life, hmem, hkey, hmsg, hp, hat, hex⟩ := hinv _ e hk
-    have hkey' : Simple.keyOfReq q = Simple.keyOfResp q0 (prepStore cfg q0.qtype a0).1 := hkey
-    simp only [Simple.keyOfReq, Simple.keyOfResp, Key.simple.injEq] at hkey'
+    have hkey' : Simple.keyOfReq q = Simple.keyOfReq q0 := hkey
+    simp only [Simple.keyOfReq, Key.simple.injEq] at hkey'
     obtain ⟨hdo, hqt, hqc, hn⟩ := hkey'
     obtain ⟨h0, hc, _, _, _⟩ := prepStore_some cfg q0.qtype a0 life hp
     refine ⟨now0, q0, a0, d0, life, hmem, hn.symm, hqt.symm, hqc.symm, hdo.symm, ?_, h0, ?_, ?_, ?_⟩
@@ -629,7 +631,7 @@ override is on and the answer is not SERVFAIL. -/
 theorem simple_served_ttl_end_to_end (cfg : Cfg) (evs : List Ev) (now : Nat) (q : Req) (a : Msg)
     (hhit : (Simple.step cfg (Simple.run cfg Store.empty evs) now q a).hit = true) :
     ∃ now0 q0 a0 d0 t x, Ev.query now0 q0 a0 d0 ∈ evs ∧
-      q0.name.toLower = q.name.toLower ∧ q0.qtype = q.qtype ∧ q0.qclass = q.qclass ∧
+      q0.name.toLower = q.name.toLower ∧ q0.qtype = q.qtype ∧ q0.qclass = q.qclass ∧ q0.do_ = q.do_ ∧
       (Simple.step cfg (Simple.run cfg Store.empty evs) now q a).resp.answer = a0.answer.map (setTTL t) ∧
       (Simple.step cfg (Simple.run cfg Store.empty evs) now q a).resp.ns = a0.ns.map (setTTL t) ∧
       (Simple.step cfg (Simple.run cfg Store.empty evs) now q a).resp.extra =
@@ -637,12 +639,12 @@ theorem simple_served_ttl_end_to_end (cfg : Cfg) (evs : List Ev) (now : Nat) (q 
       (∀ r ∈ a0.answer, r.typ ≠ typOPT → t ≤ leftRounded (max r.ttl x) (now - now0)) ∧
       (∀ r ∈ a0.ns ++ a0.extra, r.typ ≠ typOPT → t ≤ leftRounded r.ttl (now - now0) ∧ t ≤ r.ttl) ∧
       ((cfg.override = false ∨ a0.rcode = rcServFail) → x = 0) := by
-  obtain ⟨now0, q0, a0, d0, life, hmem, hn, hqt, hqc, _, _, _, hp, _, hresp⟩ :=
+  obtain ⟨now0, q0, a0, d0, life, hmem, hn, hqt, hqc, hdo, _, _, hp, _, hresp⟩ :=
     simple_hit_provenance cfg evs now q a hhit
   obtain ⟨x, hst, hx⟩ := prepStore_stored_answer cfg q.qtype a0 life hp
   obtain ⟨t, ha, hns, hex, hb, _⟩ := simple_ttl_bound (prepStore cfg q.qtype a0).1 (now - now0) q
   rw [← hresp] at ha hns hex
-  refine ⟨now0, q0, a0, d0, t, x, hmem, hn, hqt, hqc, ?_, ?_, ?_, ?_, ?_, hx⟩
+  refine ⟨now0, q0, a0, d0, t, x, hmem, hn, hqt, hqc, hdo, ?_, ?_, ?_, ?_, ?_, hx⟩
   · rw [ha, hst]; exact map_setTTL_raise t x a0.answer
   · rw [hns, hst]
   · rw [hex, hst]
@@ -989,6 +991,186 @@ example : DOOnlyAdds exUp := by
     decide
   simp [exUp, Ecs.rmHop, hsig]
 
+/-! ## The zero prefix: clients without a GeoIP subnet (known finding `ecs:locationless-fill-shared`) -/
+
+/-- Scope honesty as far as RFC 7871 promises it: scope 0 in the answer to a query that carried a real
+subnet says the answer is valid for every subnet.  Nothing follows from scope 0 in the answer to a
+zero-prefix query (7.1.2: the server answers as if there were no option, with scope 0). -/
+def ScopeHonestNZ (up : Ecs.Up) : Prop :=
+  ∀ h qt qc d f s s', s ≠ 0 → (up h qt qc d f s).2 = false → up h qt qc d f s' = up h qt qc d f s
+
+/-- The client declines ECS or its location has a GeoIP subnet. -/
+def Located (q : Req) : Prop := q.declined = true ∨ q.subnet ≠ 0
+
+def AllLocated : List (Nat × Req ⊕ Key) → Prop
+  | [] => True
+  | .inl p :: evs => Located p.2 ∧ AllLocated evs
+  | .inr _ :: evs => AllLocated evs
+
+theorem Ecs.core_eq_of_matches_located (up : Ecs.Up) (hs : ScopeHonestNZ up) (hd : DOOnlyAdds up) (q0 q : Req)
+    (hl0 : Located q0) (hm : Ecs.Matches q0 (Ecs.depFor up q0) q) : Ecs.core up q0 = Ecs.core up q := by
+  obtain ⟨hn, hqt, hqc, hdo, hf, hcase⟩ := hm
+  have hh : Ecs.host q0 = Ecs.host q := hn
+  have hsub : up (Ecs.host q) q.qtype q.qclass (Ecs.fwdDO q0) q.fam6 (Ecs.effSubnet q) = Ecs.upAt up q0 := by
+    unfold Ecs.upAt
+    rw [hh, hqt, hqc, hf]
+    rcases hcase with ⟨hdep, hdecl⟩ | ⟨_, _, hsn⟩
+    · by_cases hz : Ecs.effSubnet q0 = 0
+      · -- `q0` is located, so it declined; then `q` declines as well and forwards the same zero prefix
+        have hd0 : q0.declined = true := by
+          rcases hl0 with h | h
+          · exact h
+          · unfold Ecs.effSubnet at hz
+            cases hq : q0.declined
+            · rw [hq] at hz; exact absurd hz h
+            · rfl
+        have : Ecs.effSubnet q = Ecs.effSubnet q0 := by
+          unfold Ecs.effSubnet; rw [← hdecl, hd0]; rfl
+        rw [this]
+      · apply hs _ _ _ _ _ _ _ hz
+        have : (Ecs.upAt up q0).2 = false := hdep
+        unfold Ecs.upAt at this
+        rw [hh, hqt, hqc, hf] at this
+        exact this
+    · rw [hsn]
+  unfold Ecs.core
+  by_cases hfd : Ecs.fwdDO q = Ecs.fwdDO q0
+  · have : Ecs.upAt up q = Ecs.upAt up q0 := by
+      rw [← hsub]; unfold Ecs.upAt; rw [hfd]
+    rw [this, hqt, hdo]
+  · have hq : q.do_ = false := by
+      cases h : q.do_
+      · rfl
+      · have h0 : q0.do_ = true := by rw [hdo, h]
+        simp [Ecs.fwdDO, h, h0] at hfd
+    have hq0 : q0.do_ = false := by rw [hdo, hq]
+    have hD := (hd (Ecs.host q) q.qtype q.qclass q.fam6 (Ecs.effSubnet q)).2
+    rw [hq, hq0, hqt, ← hsub]
+    unfold Ecs.upAt
+    cases h1 : Ecs.fwdDO q <;> cases h2 : Ecs.fwdDO q0
+    · exact absurd (h1.trans h2.symm) hfd
+    · exact hD
+    · exact hD.symm
+    · exact absurd (h1.trans h2.symm) hfd
+
+def Ecs.InvUpL (cfg : Cfg) (up : Ecs.Up) (s : Store) : Prop :=
+  ∀ k e, s k = some e → ∃ q0, Located q0 ∧ k = (if Ecs.depFor up q0 then Ecs.keyDep q0 else Ecs.keyNo q0) ∧
+    e.msg = (prepStore cfg q0.qtype (echo q0 (Ecs.core up q0))).1
+
+theorem Ecs.invUpL_run (cfg : Cfg) (up : Ecs.Up) (s : Store) (evs : List (Nat × Req ⊕ Key)) (hl : AllLocated evs)
+    (h : Ecs.InvUpL cfg up s) : Ecs.InvUpL cfg up (Ecs.runUp cfg up s evs) := by
+  induction evs generalizing s with
+  | nil => exact h
+  | cons ev evs ih =>
+    cases ev with
+    | inr k =>
+      apply ih _ hl
+      intro k' e he
+      by_cases hk : k' = k
+      · subst hk; simp at he
+      · rw [del_other s k k' hk] at he; exact h k' e he
+    | inl p =>
+      apply ih _ hl.2
+      show Ecs.InvUpL cfg up (Ecs.step cfg s p.1 p.2 (Ecs.answerFor up p.2) (Ecs.depFor up p.2)).store
+      unfold Ecs.step
+      split
+      · exact h
+      · split
+        · exact h
+        · intro k' e he
+          dsimp only at he
+          by_cases hk : k' = (if Ecs.depFor up p.2 then Ecs.keyDep p.2 else Ecs.keyNo p.2)
+          · subst hk
+            rw [put_same] at he
+            cases he
+            exact ⟨p.2, hl.1, rfl, rfl⟩
+          · rw [put_other s _ k' _ hk] at he; exact h k' e he
+
+/-- **ecs_hit_equals_fresh_located.**  The cached-equals-fresh clause under the weaker, realistic scope
+hypothesis `ScopeHonestNZ` (nothing assumed about answers to zero-prefix queries): it holds after every
+history in which each client either declines ECS or has a GeoIP subnet, for every further request. -/
+theorem ecs_hit_equals_fresh_located (cfg : Cfg) (up : Ecs.Up) (hs : ScopeHonestNZ up) (hd : DOOnlyAdds up)
+    (evs : List (Nat × Req ⊕ Key)) (hl : AllLocated evs) (now : Nat) (q : Req) :
+    SameModTTL
+      (Ecs.step cfg (Ecs.runUp cfg up Store.empty evs) now q (Ecs.answerFor up q) (Ecs.depFor up q)).resp
+      (Ecs.step cfg Store.empty now q (Ecs.answerFor up q) (Ecs.depFor up q)).resp := by
+  have hinv := Ecs.invUpL_run cfg up Store.empty evs hl (by intro k e h; cases h)
+  generalize Ecs.runUp cfg up Store.empty evs = s at *
+  have hfresh : (Ecs.step cfg Store.empty now q (Ecs.answerFor up q) (Ecs.depFor up q)).resp =
+      Ecs.setAD (prepStore cfg q.qtype (echo q (Ecs.core up q))).1 q := by
+    unfold Ecs.step Ecs.lookup
+    simp only [Store.live, Store.empty]
+    split
+    · rename_i h; split at h <;> cases h
+    · split <;> rfl
+  rw [hfresh]
+  have key : ∀ k e, (k = Ecs.keyNo q ∨ (k = Ecs.keyDep q ∧ q.declined = false)) → s.live now k = some e →
+      SameModTTL (Ecs.hit e.msg (now - e.at_) q) (Ecs.setAD (prepStore cfg q.qtype (echo q (Ecs.core up q))).1 q) := by
+    intro k e hk hlv
+    obtain ⟨hsk, _⟩ := live_some s now k e hlv
+    obtain ⟨q0, hloc, hkey, hmsg⟩ := hinv k e hsk
+    have hm := Ecs.matches_of_key q0 q _ k hk hkey
+    have hcore := Ecs.core_eq_of_matches_located up hs hd q0 q hloc hm
+    rw [hmsg, hcore, hm.2.1]
+    obtain ⟨ans0, hs0, hst0⟩ := prepStore_echo_fields cfg q.qtype q0 (Ecs.core up q)
+    obtain ⟨ans1, hs1, hst1⟩ := prepStore_echo_fields cfg q.qtype q (Ecs.core up q)
+    rw [hs0, hs1]
+    refine ⟨rfl, rfl, rfl, rfl, rfl, rfl, ?_, ?_, ?_⟩
+    · show strip (ans0.map _) = strip ans1
+      rw [strip_map_setTTL, hst0, hst1]
+    · show strip ((echo q0 (Ecs.core up q)).ns.map _) = strip (echo q (Ecs.core up q)).ns
+      rw [strip_map_setTTL]; rfl
+    · show strip ((echo q0 (Ecs.core up q)).extra.map _) = strip (echo q (Ecs.core up q)).extra
+      rw [strip_map_setTTL]; rfl
+  unfold Ecs.step
+  split
+  · rename_i e hlk
+    unfold Ecs.lookup at hlk
+    split at hlk
+    · rename_i e' hl'
+      cases hlk
+      exact key _ e (Or.inl rfl) hl'
+    · split at hlk
+      · cases hlk
+      · rename_i hdd
+        have hd' : q.declined = false := by cases hq : q.declined <;> simp_all
+        exact key _ e (Or.inr ⟨rfl, hd'⟩) hlk
+  · split <;> exact ⟨rfl, rfl, rfl, rfl, rfl, rfl, rfl, rfl, rfl⟩
+
+/-- An upstream as RFC 7871 describes it: answers tailored to the subnet with a non-zero scope, and a
+generic answer with scope 0 for the zero prefix. -/
+def upZ : Ecs.Up := fun _ qt _ _ _ s =>
+  ({ exMsg with answer := [{ typ := qt, ttl := 60, soaMin := 0, data := s }], ns := [], extra := [] }, decide (s ≠ 0))
+
+example : ScopeHonestNZ upZ := by
+  intro h qt qc d f s s' hz hdep
+  simp [upZ, hz] at hdep
+
+example : DOOnlyAdds upZ := by
+  intro h qt qc f s
+  exact ⟨rfl, rfl⟩
+
+/-- **ecs_locationless_counterexample.**  The code as it is violates cached == fresh against `upZ`
+(scope-honest wherever the protocol promises it): after one query of a client without a GeoIP subnet
+that does not decline ECS (`subnet := 0`), a client of location 3 is served that client's generic
+answer from the no-ECS cache, while its fresh answer is the one tailored to subnet 3.  A declining
+client does no such harm. -/
+theorem ecs_locationless_counterexample :
+    (Ecs.step ⟨0, false⟩ (Ecs.runUp ⟨0, false⟩ upZ Store.empty [.inl (0, { exReq with subnet := 0 })]) 5
+      { exReq with subnet := 3 } (Ecs.answerFor upZ { exReq with subnet := 3 }) (Ecs.depFor upZ { exReq with subnet := 3 })).hit = true ∧
+    (Ecs.step ⟨0, false⟩ (Ecs.runUp ⟨0, false⟩ upZ Store.empty [.inl (0, { exReq with subnet := 0 })]) 5
+      { exReq with subnet := 3 } (Ecs.answerFor upZ { exReq with subnet := 3 }) (Ecs.depFor upZ { exReq with subnet := 3 })).resp.answer.map (·.data) = [0] ∧
+    (Ecs.step ⟨0, false⟩ Store.empty 5
+      { exReq with subnet := 3 } (Ecs.answerFor upZ { exReq with subnet := 3 }) (Ecs.depFor upZ { exReq with subnet := 3 })).resp.answer.map (·.data) = [3] ∧
+    (Ecs.step ⟨0, false⟩ (Ecs.runUp ⟨0, false⟩ upZ Store.empty [.inl (0, { exReq with subnet := 0, declined := true })]) 5
+      { exReq with subnet := 3 } (Ecs.answerFor upZ { exReq with subnet := 3 }) (Ecs.depFor upZ { exReq with subnet := 3 })).hit = false := by
+  decide +kernel
+
+/-- Non-vacuity of `AllLocated`: a history with a declining and a located client. -/
+example : AllLocated [.inl (0, { exReq with subnet := 0, declined := true }), .inr (Ecs.keyNo exReq), .inl (1, { exReq with subnet := 3 })] := by
+  refine ⟨Or.inl rfl, Or.inr ?_, trivial⟩
+  decide
+
 /-- **ecs_served_ttl_end_to_end.**  The TTL clause against the upstream's records for the ECS-aware
 cache: a response served from cache consists of the records of the hop-by-hop-filtered upstream answer
 given at `now0` to an earlier matching query of the history, all with one TTL `t` that is at most each
@@ -1062,10 +1244,9 @@ example : (Ecs.step ⟨0, false⟩ (Ecs.runUp ⟨0, false⟩ exUp Store.empty [.
 #print axioms Ecs.keyDep_eq_iff
 #print axioms Simple.step_congr
 #print axioms simple_key_separation
-#print axioms Simple.keyOfResp_echo
+#print axioms simple_respkey_counterexample
 #print axioms Ecs.step_congr
 #print axioms ecs_key_separation
-#print axioms msgDO_prep_echo
 #print axioms Simple.invUp_step
 #print axioms Simple.invUp_run
 #print axioms prepStore_echo_fields
@@ -1086,6 +1267,10 @@ example : (Ecs.step ⟨0, false⟩ (Ecs.runUp ⟨0, false⟩ exUp Store.empty [.
 #print axioms Ecs.matches_of_key
 #print axioms ecs_hit_equals_fresh
 #print axioms ecs_served_ttl_end_to_end
+#print axioms Ecs.core_eq_of_matches_located
+#print axioms Ecs.invUpL_run
+#print axioms ecs_hit_equals_fresh_located
+#print axioms ecs_locationless_counterexample
 
 end Agd.Cache
 #print axioms Agd.Tie.TrC04.translation_complete
